@@ -782,7 +782,7 @@ const Port *Ports::apropos(const char *path) const
     const char* path_end;
     for(const Port &port: ports)
         if(strchr(port.name,'/') && rtosc_match_path(port.name,path, &path_end))
-            return (port.ports && strchr(path,'/')[1])
+            return (port.ports && *path_end)
                 ? port.ports->apropos(path_end)
                 : &port;
 
